@@ -325,6 +325,28 @@ func TestC16L2(t *testing.T) {
 		if a, b := l2Queries(l2, denoms, w.ops), l2Queries(n, denoms, w.ops); a != b {
 			fail("queries answer differently after the round trip: %s", firstDiffLine(a, b))
 		}
+		// one-step probes, complete over the validator message space: every (operator, consensus key) pair is
+		// offered as MsgAddValidator and every operator as MsgRemoveValidator, each on a branch of both chains
+		oneStep := func(when string) {
+			var ms []sdk.Msg
+			for _, op := range w.ops {
+				for k := 0; k < nValKeys; k++ {
+					m, _ := opchildtypes.NewMsgAddValidator("m", l2.Authority, op.String(), w.keys[k].PubKey())
+					ms = append(ms, m)
+				}
+				m, _ := opchildtypes.NewMsgRemoveValidator(l2.Authority, op.String())
+				ms = append(ms, m)
+			}
+			for _, m := range ms {
+				var a, b string
+				branchL2(l2, func(x *henv.L2) { a = renderResult(x.Deliver(m)) })
+				branchL2(n, func(x *henv.L2) { b = renderResult(x.Deliver(m)) })
+				if a != b {
+					fail("%s: %T %v answered differently:\n original:   %s\n reimported: %s", when, m, m, truncStr(a, 800), truncStr(b, 800))
+				}
+			}
+		}
+		oneStep("right after the import")
 		// probes: same messages and block boundaries on both chains
 		nProbes := rapid.IntRange(10, 20).Draw(rt, "probes")
 		for i := 0; i < nProbes; i++ {
